@@ -168,6 +168,16 @@ def tyNorm (s : String) : String :=
 
 def isVecTy (s : String) : Bool := s == "vars" || s == "varptrs"
 
+/-- an argument of type class `arg` can be passed for a parameter of type class `param`
+(`nullptr` for any pointer parameter) -/
+def tyMatch (param arg : String) : Bool :=
+  tyNorm param == tyNorm arg || (arg == "null" && (tyNorm param == "dev" || tyNorm param == "graph"))
+
+def tysMatch : List String → List String → Bool
+  | [], [] => true
+  | p :: ps, a :: as => tyMatch p a && tysMatch ps as
+  | _, _ => false
+
 /-! ## `OpTable.no_unsupported` -/
 
 def bodySupported (b : Body) : Bool := (bodyCalls b).all (·.kind != "unsupported")
@@ -354,7 +364,7 @@ def firstElem (tm : Tm) : Tm :=
 def lookupVal (env : List (String × Val)) (a : String) : Val :=
   match env.lookup a with
   | some v => v
-  | none => ⟨[a], "num"⟩
+  | none => ⟨[a], if a == "#nullptr" then "null" else "num"⟩
 
 def bindVal (env : List (String × Val)) (k : String) (v : Val) : List (String × Val) :=
   (k, v) :: env
@@ -370,9 +380,8 @@ def pNames : List String := ["p0", "p1", "p2", "p3", "p4", "p5", "p6", "p7", "p8
 Node level → node_funcs.cc first, Tensor level → tensor_funcs.cc first; then the wrappers of
 basic_functions.h and the composites of contrib/functions.h. -/
 def findFn (t : Table) (node : Bool) (name : String) (argTys : List String) : Option Fn :=
-  let want := argTys.map tyNorm
   let ok (f : Fn) : Bool :=
-    f.name == name && f.params.map (fun p => tyNorm p.ty) == want &&
+    f.name == name && tysMatch (f.params.map (·.ty)) argTys &&
     (f.targ == "" || f.targ == "Var" || f.targ == (if node then "Node" else "Tensor"))
   ((if node then t.nodeFns else t.tensorFns) ++ t.basicFns ++ t.sharedFns).find? ok
 
@@ -380,8 +389,7 @@ def findArith (t : Table) (sym : String) (argTys : List String) : Option Fn :=
   let name :=
     if sym == "+" || sym == "pos" then "operator+" else if sym == "-" || sym == "neg" then "operator-"
     else if sym == "*" then "operator*" else if sym == "/" then "operator/" else sym
-  let want := argTys.map tyNorm
-  t.arithFns.find? fun f => f.name == name && f.params.map (fun p => tyNorm p.ty) == want
+  t.arithFns.find? fun f => f.name == name && tysMatch (f.params.map (·.ty)) argTys
 
 def isDevsel (tm : Tm) : Bool := tm.head? == some "devsel"
 
